@@ -138,7 +138,9 @@ func checkC13(ctx *Ctx) {
 		ctx.diff(w, "c13.validpath", true, "validpath", p)
 	}
 	// end to end
-	outs := []string{"o.txt", "sub/o.txt", "new/deep/er/o.txt", "../sib/o.txt", "../../top/o.txt", "@/abs/o.txt", "a.b/c.d/o.e.f", "x_y/o-1.txt", "../l2/back.txt", "sub/../o2.txt", "./dot/o.txt", "__parent/o.txt"}
+	outs := []string{"o.txt", "sub/o.txt", "new/deep/er/o.txt", "../sib/o.txt", "../../top/o.txt", "@/abs/o.txt", "a.b/c.d/o.e.f", "x_y/o-1.txt", "../l2/back.txt", "sub/../o2.txt", "./dot/o.txt", "__parent/o.txt",
+		// valid names that look like the encoding's own placeholders: the declared output must still end up at exactly that path
+		"__parent__report.txt", "__fsroot__/a/o.txt", "d/__parent__x/o.txt", "__fsroot__o.txt"}
 	ins := []string{"i.txt", "data/i.txt", "../up/i.txt", "@/absin/i.txt", "../../two/i.txt"}
 	cases := []e2ePath{}
 	for _, o := range outs {
